@@ -138,6 +138,11 @@ func NewRunner(p *Plan, opts RunOpts) *Runner {
 	for _, nc := range p.Nodes {
 		r.Nodes = append(r.Nodes, NewNode(nc, NewWorld()))
 	}
+	for _, s := range p.Steps {
+		if s.Kind == "deploy" && s.Name == "VI" {
+			r.Model.Ctr.VI = true
+		}
+	}
 	return r
 }
 
